@@ -50,6 +50,20 @@ theorem C17_total (t : Str) : parse t = none ∨ ∃ ks, parse t = some ks := by
   | none => exact Or.inl rfl
   | some ks => exact Or.inr ⟨ks, rfl⟩
 
+/-- **C17 (sections).** The accepted entries are exactly the `[Key]` sections of the file, in order.
+    Declarative reading (KestrelProofs/Keyring.lean §A, §J): `classify` turns a line into a token
+    (`key | name v | pk v | sk v | skip | bad`) exactly as `parse_config` dispatches on the cleaned line;
+    `sectionsOf` is `none` if a `bad` token occurs or a non-skip token precedes the first `key`, otherwise the
+    token groups after each `key` (skips removed); `entryOf` reads a group as an entry: exactly one valid Name,
+    exactly one PublicKey decoding to 36 bytes, at most one PrivateKey decoding to 84 bytes, in any order.
+    A text is accepted with entries `ks` iff it has at least one section, every section is an entry, these entries
+    are `ks`, and names and public keys are pairwise distinct. -/
+theorem C17_sections (t : Str) (ks : List Key) :
+    parse t = some ks ↔
+      ∃ secs, sectionsOf ((lines t).map classify) = some secs ∧ secs ≠ [] ∧ secs.mapM entryOf = some ks ∧
+        (ks.map (·.name)).Nodup ∧ (ks.map (·.pk)).Nodup :=
+  parse_iff_sections t ks
+
 /-- **C17 (round trip).** Every keyring the tool itself writes parses back to exactly the entries written, in
     order.  `es` are the (name, encoded public key, locked private key) triples of successive `key generate` runs;
     each name is what `gen_key` accepts (`read_line().trim()` then `valid_key_name`: non-empty, ≤ 128 bytes, no
@@ -97,6 +111,22 @@ example : (∀ k ∈ [(⟨"alice".toList, alicePk, some aliceSk⟩ : Key), ⟨"B
 
 example : ∃ ks, parse exampleText = some ks ∧ ∃ k, getKey ks "Bobby Bobertson".toList = some k ∧ k.pk = bobPk :=
   ⟨_, exampleText_parses, ⟨"Bobby Bobertson".toList, bobPk, some aliceSk⟩, by decide, rfl⟩
+
+/-- `C17_sections`, left to right, on the concrete text -/
+example : ∃ secs, sectionsOf ((lines exampleText).map classify) = some secs ∧ secs ≠ [] ∧
+    secs.mapM entryOf = some [⟨"alice".toList, alicePk, some aliceSk⟩, ⟨"Bobby Bobertson".toList, bobPk, some aliceSk⟩] :=
+  let ⟨secs, h1, h2, h3, _⟩ := (C17_sections exampleText _).mp exampleText_parses
+  ⟨secs, h1, h2, h3⟩
+
+/-- the declarative reading computes: fields in any order, comments skipped; a `bad` line or a field before the
+    first `[Key]` gives no reading; `C17_sections` right to left then yields acceptance -/
+example : sectionsOf [.skip, .key, .pk "P".toList, .skip, .name "bob".toList, .key, .name "al".toList, .pk "Q".toList, .sk "S".toList] =
+      some [[.pk "P".toList, .name "bob".toList], [.name "al".toList, .pk "Q".toList, .sk "S".toList]] ∧
+    sectionsOf [.name "al".toList, .key] = none ∧ sectionsOf [.key, .bad] = none ∧ sectionsOf [.skip] = some [] := by decide
+
+example : entryOf [.pk bobPk, .name "bob".toList] = some ⟨"bob".toList, bobPk, none⟩ := by decide
+example : entryOf [.name "al".toList, .name "al".toList, .pk alicePk] = none ∧ entryOf [.name "al".toList] = none ∧
+    entryOf [.pk "AAAA".toList, .name "al".toList] = none := by decide
 
 example : parse "".toList = none ∧ parse "[Key]\nName = x\n".toList = none ∧ parse "junk".toList = none := by decide
 
